@@ -10,6 +10,7 @@ package main
 
 import (
 	"fmt"
+	"math/bits"
 	"os"
 	"runtime/debug"
 	"runtime/pprof"
@@ -17,6 +18,8 @@ import (
 	"strconv"
 	"strings"
 	"sync"
+	"sync/atomic"
+	"time"
 
 	"github.com/XiaoMi/Gaea/proxy/plan"
 
@@ -185,6 +188,7 @@ func traits(l rig.Layout, rg *rig.Rig, content []int) map[string]string {
 	t["k_value_on_2_tables"] = b(k2)
 	t["v_value_on_2_tables"] = b(v2)
 	t["null_and_NULL_string"] = b(hasNull && hasNullStr)
+	t["NULL_string_present"] = b(hasNullStr)
 	t["separator_collision"] = b(sepA && sepB)
 	return t
 }
@@ -231,27 +235,76 @@ func violates(w *worker, c Case) bool {
 }
 
 func confirm(r *ev.Run, w *worker, c Case, reuse outcome) {
-	first := runFresh(w, c)
-	if first.status == "violation" {
-		violSet.Store(caseKey(c), true)
-	}
 	l, _ := parseLayout(c.Layout)
 	rg := w.rig(l)
-	feat := features(c.Q)
-	feat["layout_rule"] = l.Rule
-	if first.status != "violation" {
-		// the shared (cached) plan misbehaved but a fresh plan does not
-		if reuse.status != "violation" {
+	// cheap exit: a smaller case (one clause reset, or one row removed) is already known
+	// to violate, so this one is not a minimal witness
+	violSet.Store(caseKey(c), true)
+	for d := range c.Q {
+		if c.Q[d] != 0 {
+			q := append([]int{}, c.Q...)
+			q[d] = 0
+			if _, ok := violSet.Load(caseKey(Case{Layout: c.Layout, Q: q, Content: c.Content})); ok {
+				r.Add("violations_nonminimal", 1)
+				return
+			}
+		}
+	}
+	for i := range c.Content {
+		cc := append(append([]int{}, c.Content[:i]...), c.Content[i+1:]...)
+		if _, ok := violSet.Load(caseKey(Case{Layout: c.Layout, Q: c.Q, Content: cc})); ok {
+			r.Add("violations_nonminimal", 1)
 			return
 		}
-		feat["mismatch"] = "plan_reuse:" + reuse.v.kind
+	}
+	// five runs from scratch (fresh plan, fresh store). Gaea's own nondeterminism (map
+	// iteration order in the group merger) can make a wrong answer appear only sometimes.
+	var first outcome
+	nViol := 0
+	stable := true
+	for i := 0; i < 5; i++ {
+		o := runFresh(w, c)
+		if o.status == "violation" {
+			if nViol == 0 {
+				first = o
+			} else if o.v.kind != first.v.kind {
+				stable = false
+			}
+			nViol++
+		}
+	}
+	finish := func(o outcome, kind string) {
+		feat := features(c.Q)
+		feat["layout_rule"] = l.Rule
+		feat["mismatch"] = kind
+		feat["stable"] = "yes"
+		if !stable || nViol != 5 {
+			r.Add("witnesses_not_failing_identically_5_times", 1)
+			feat["stable"] = "no"
+		}
 		for k, v := range traits(l, rg, c.Content) {
 			feat[k] = v
 		}
-		c.SQL, c.Rows = reuse.sql, describe(l, c.Content)
-		r.Violation(ev.Witness{Summary: fmt.Sprintf("[%s] %s on %v: only when the plan object is executed repeatedly: %s", c.Layout, reuse.sql, c.Rows, reuse.v.detail), Features: feat, Case: c})
+		for k, v := range kinds(c.Q) {
+			feat[k] = v
+		}
+		feat["mechanism"] = mechanism(feat)
+		noteClass(feat)
+		c.SQL, c.Rows, c.Shards = o.sql, describe(l, c.Content), o.shards
+		r.Violation(ev.Witness{
+			Summary:  fmt.Sprintf("[%s] %s on %v: %s", c.Layout, o.sql, c.Rows, o.v.detail),
+			Features: feat, Case: c})
+	}
+	if nViol == 0 {
+		// wrong only in the enumeration loop (shared plan object, or a nondeterministic
+		// merge that happened to come out right five times)
+		if reuse.status == "violation" {
+			r.Add("violations_not_reproduced_from_scratch", 1)
+			finish(reuse, "not_reproduced_from_scratch:"+reuse.v.kind)
+		}
 		return
 	}
+	violSet.Store(caseKey(c), true)
 	// local minimality
 	for d := range c.Q {
 		if c.Q[d] == 0 {
@@ -271,30 +324,27 @@ func confirm(r *ev.Run, w *worker, c Case, reuse outcome) {
 			return
 		}
 	}
-	// a reported witness must fail identically five times
-	for i := 0; i < 4; i++ {
-		again := runFresh(w, c)
-		if again.status != first.status || again.v.kind != first.v.kind {
-			r.Add("unstable_verdicts", 1)
-			first.v.kind = "unstable"
-		}
-	}
 	r.Add("violations_minimal", 1)
-	feat["mismatch"] = first.v.kind
-	noteClass(feat)
-	for k, v := range traits(l, rg, c.Content) {
-		feat[k] = v
-	}
-	c.SQL, c.Rows, c.Shards = first.sql, describe(l, c.Content), first.shards
-	r.Violation(ev.Witness{
-		Summary:  fmt.Sprintf("[%s] %s on %v: %s", c.Layout, first.sql, c.Rows, first.v.detail),
-		Features: feat, Case: c})
+	finish(first, first.v.kind)
 }
 
 var (
 	classMu sync.Mutex
 	classes = map[string]int{}
 )
+
+var errClasses = map[string]int{}
+
+var errExamples = map[string]string{}
+
+func noteErr(c string, example ...string) {
+	classMu.Lock()
+	errClasses[c]++
+	if _, ok := errExamples[c]; !ok && len(example) > 0 {
+		errExamples[c] = strings.Join(example, " || ")
+	}
+	classMu.Unlock()
+}
 
 // noteClass keeps a histogram of minimal-witness classes (printed with VERIF_DEBUG=1).
 func noteClass(f map[string]string) {
@@ -304,7 +354,11 @@ func noteClass(f map[string]string) {
 			parts = append(parts, d+"="+v)
 		}
 	}
-	parts = append(parts, "mismatch="+f["mismatch"])
+	parts = append(parts, "mismatch="+f["mismatch"], "stable="+f["stable"])
+	if os.Getenv("VERIF_DEBUG") == "2" {
+		parts = []string{"mismatch=" + f["mismatch"], "stable=" + f["stable"]}
+	}
+	parts = append([]string{"[" + f["mechanism"] + "]"}, parts...)
 	classMu.Lock()
 	classes[strings.Join(parts, " ")]++
 	classMu.Unlock()
@@ -322,6 +376,9 @@ func printClasses() {
 	for _, k := range ks {
 		fmt.Printf("CLASS %6d  %s\n", classes[k], k)
 	}
+	for k, v := range errExamples {
+		fmt.Printf("ERRCLASS %s\n    %s\n", k, v)
+	}
 }
 
 type worker struct {
@@ -338,34 +395,6 @@ func (w *worker) rig(l rig.Layout) *rig.Rig {
 	}
 	w.rigs[l.Name()] = rg
 	return rg
-}
-
-func layouts(r *ev.Run) (full, reduced []rig.Layout) {
-	full = []rig.Layout{{Rule: "hash", Slices: 2, Per: 1}, {Rule: "mod", Slices: 2, Per: 2}}
-	reduced = []rig.Layout{
-		{Rule: "hash", Slices: 1, Per: 2}, {Rule: "hash", Slices: 3, Per: 1},
-		{Rule: "mod", Slices: 1, Per: 4}, {Rule: "mod", Slices: 4, Per: 1},
-		{Rule: "range", Slices: 2, Per: 1}, {Rule: "range", Slices: 2, Per: 2},
-		{Rule: "date_month", Slices: 2, Per: 1}, {Rule: "date_month", Slices: 2, Per: 2},
-		{Rule: "mycat_mod", Slices: 2, Per: 1}, {Rule: "mycat_mod", Slices: 2, Per: 2},
-	}
-	if r.Thorough() {
-		full = nil
-		reduced = nil
-		for _, rule := range []string{"hash", "mod", "range", "date_month", "mycat_mod"} {
-			for s := 1; s <= 4; s++ {
-				for p := 1; p <= 4; p++ {
-					l := rig.Layout{Rule: rule, Slices: s, Per: p}
-					if (s == 2 && p == 1) || (s == 2 && p == 2) || (s == 3 && p == 1) {
-						full = append(full, l)
-					} else {
-						reduced = append(reduced, l)
-					}
-				}
-			}
-		}
-	}
-	return
 }
 
 func selfTest() {
@@ -413,6 +442,32 @@ func selfTest() {
 	}
 }
 
+// distinct (query vector, content) pairs whose execution merged >= 2 non-empty shard
+// results: one bit per pair
+var (
+	ntBits  []uint64
+	ntWords int
+)
+
+func markNontrivial(qi, ci int) {
+	w := qi*ntWords + ci/64
+	bit := uint64(1) << uint(ci%64)
+	for {
+		old := atomic.LoadUint64(&ntBits[w])
+		if old&bit != 0 || atomic.CompareAndSwapUint64(&ntBits[w], old, old|bit) {
+			return
+		}
+	}
+}
+
+func countNontrivial() int {
+	n := 0
+	for _, w := range ntBits {
+		n += bits.OnesCount64(w)
+	}
+	return n
+}
+
 type item struct {
 	l  rig.Layout
 	q  []int
@@ -448,34 +503,118 @@ func main() {
 		r.Finish()
 	}
 
-	maxRows := r.Pick(3, 4)
-	devFull := r.Pick(3, 4)
-	devReduced := r.Pick(2, 3)
-	maxRowsReduced := r.Pick(3, 3)
-
+	if qs := os.Getenv("VERIF_C02_QUERY"); qs != "" {
+		// development aid: one query vector over all contents of one layout
+		var q []int
+		for _, f := range strings.Split(qs, ",") {
+			n, _ := strconv.Atoi(f)
+			q = append(q, n)
+		}
+		ln := os.Getenv("VERIF_C02_LAYOUT")
+		if ln == "" {
+			ln = "hash-2x1"
+		}
+		w := &worker{rigs: map[string]*rig.Rig{}}
+		shown := 0
+		enum.Multisets(len(rig.Universe), 3, func(c []int) {
+			cs := Case{Layout: ln, Q: q, Content: append([]int{}, c...)}
+			o := runFresh(w, cs)
+			if shown == 0 && len(c) == 0 {
+				fmt.Println(o.sql, o.status, o.errText)
+			}
+			if o.status == "violation" && shown < 4 {
+				shown++
+				fmt.Printf("%v %s\n   %s\n   %v\n", describe(mustLayout(ln), c), o.v.kind, o.v.detail, o.shards)
+			}
+			if o.status == "rejected_exec" && shown < 4 && len(c) == 2 {
+				shown++
+				fmt.Println("rejected:", o.errText)
+			}
+		})
+		os.Exit(0)
+	}
+	// a plan of (layout, max deviations, max rows) entries; one layout may appear in
+	// several entries (deep grammar on small contents, shallow grammar on larger ones)
+	type entry struct {
+		l       rig.Layout
+		dev     int
+		rows    int
+		minRows int // contents with fewer rows are covered by another entry of this layout
+	}
+	var entries []entry
+	if r.Quick() {
+		entries = append(entries, entry{rig.Layout{Rule: "mod", Slices: 2, Per: 2}, 3, 3, 0})
+		for _, l := range []rig.Layout{
+			{Rule: "hash", Slices: 2, Per: 1}, {Rule: "hash", Slices: 3, Per: 1},
+			{Rule: "mod", Slices: 1, Per: 4}, {Rule: "mod", Slices: 4, Per: 1},
+			{Rule: "range", Slices: 2, Per: 1}, {Rule: "range", Slices: 2, Per: 2},
+			{Rule: "date_month", Slices: 2, Per: 1}, {Rule: "date_month", Slices: 2, Per: 2},
+			{Rule: "mycat_mod", Slices: 2, Per: 1}, {Rule: "mycat_mod", Slices: 2, Per: 2}} {
+			entries = append(entries, entry{l, 2, 3, 0})
+		}
+	} else {
+		for _, rule := range []string{"hash", "mod", "range", "date_month", "mycat_mod"} {
+			for s := 1; s <= 4; s++ {
+				for p := 1; p <= 4; p++ {
+					l := rig.Layout{Rule: rule, Slices: s, Per: p}
+					switch {
+					case rule == "mod" && s == 2 && p == 2:
+						entries = append(entries, entry{l, 3, 3, 0}, entry{l, 2, 4, 4}, entry{l, 4, 2, 0})
+					case s == 2 && p == 2:
+						entries = append(entries, entry{l, 3, 3, 0})
+					case rule == "hash" && s == 3 && p == 1:
+						entries = append(entries, entry{l, 2, 4, 0})
+					default:
+						entries = append(entries, entry{l, 2, 3, 0})
+					}
+				}
+			}
+		}
+	}
+	maxRows, maxDev := 0, 0
+	for _, e := range entries {
+		if e.rows > maxRows {
+			maxRows = e.rows
+		}
+		if e.dev > maxDev {
+			maxDev = e.dev
+		}
+	}
 	var contents [][]int
 	enum.Multisets(len(rig.Universe), maxRows, func(s []int) { contents = append(contents, append([]int{}, s...)) })
-	var queriesFull, queriesReduced [][]int
-	enum.Deviations(dims(), devFull, func(idx []int) { queriesFull = append(queriesFull, append([]int{}, idx...)) })
-	enum.Deviations(dims(), devReduced, func(idx []int) { queriesReduced = append(queriesReduced, append([]int{}, idx...)) })
-
-	full, reduced := layouts(r)
-	// item n -> (query, layout): layouts are interleaved inside each query so that a time
-	// cap cuts all layouts at the same deviation depth (fewest deviations first)
-	nR, nF := len(queriesReduced), len(queriesFull)
-	perR := len(full) + len(reduced)
-	nItems := nR*perR + (nF-nR)*len(full)
-	itemAt := func(n int) item {
-		if n < nR*perR {
-			qi, k := n/perR, n%perR
-			if k < len(full) {
-				return item{full[k], queriesFull[qi], qi}
+	var queries [][]int
+	enum.Deviations(dims(), maxDev, func(idx []int) { queries = append(queries, append([]int{}, idx...)) })
+	nQueriesAt := map[int]int{} // number of query vectors with <= d deviations
+	for d := 0; d <= maxDev; d++ {
+		for _, q := range queries {
+			if deviations(q) <= d {
+				nQueriesAt[d]++
 			}
-			return item{reduced[k-len(full)], queriesFull[qi], qi}
 		}
-		n -= nR * perR
-		qi := nR + n/len(full)
-		return item{full[n%len(full)], queriesFull[qi], qi}
+	}
+
+	ntWords = (len(contents) + 63) / 64
+	ntBits = make([]uint64, len(queries)*ntWords)
+
+	// items in fewest-deviations-first order, all entries interleaved inside each query
+	// so that a time cap cuts every layout at the same depth
+	type citem struct {
+		qi int32
+		e  int16
+	}
+	var items []citem
+	for qi, q := range queries {
+		d := deviations(q)
+		for ei, e := range entries {
+			if d <= e.dev && !(e.dev == 4 && d < 4) {
+				items = append(items, citem{int32(qi), int16(ei)})
+			}
+		}
+	}
+	nItems := len(items)
+	itemAt := func(n int) (item, entry) {
+		e := entries[items[n].e]
+		return item{e.l, queries[items[n].qi], int(items[n].qi)}, e
 	}
 
 	// stores are read-only for SELECTs and shared by all workers
@@ -485,12 +624,26 @@ func main() {
 	for i := range all {
 		all[i] = i
 	}
-	for _, l := range append(append([]rig.Layout{}, full...), reduced...) {
+	layoutRows := map[string]int{}
+	var layoutOrder []rig.Layout
+	for _, e := range entries {
+		if _, ok := layoutRows[e.l.Name()]; !ok {
+			layoutOrder = append(layoutOrder, e.l)
+		}
+		if e.rows > layoutRows[e.l.Name()] {
+			layoutRows[e.l.Name()] = e.rows
+		}
+	}
+	for _, l := range layoutOrder {
 		rg, err := rig.New(l)
 		if err != nil {
 			ev.Fatalf("%v", err)
 		}
 		for _, c := range contents {
+			if len(c) > layoutRows[l.Name()] {
+				stores[l.Name()] = append(stores[l.Name()], nil)
+				continue
+			}
 			st, err := rg.NewStore(contentRows(c))
 			if err != nil {
 				ev.Fatalf("%s: %v", l.Name(), err)
@@ -501,17 +654,21 @@ func main() {
 			ev.Fatalf("%s: %v", l.Name(), err)
 		}
 	}
-	isReduced := map[string]bool{}
-	for _, l := range reduced {
-		isReduced[l.Name()] = true
-	}
 
 	pool := sync.Pool{New: func() interface{} { return &worker{rigs: map[string]*rig.Rig{}} }}
 	var sampleMu sync.Mutex
 	sampled := map[string]bool{}
 
-	done := enum.Parallel(nItems, r.TimeUp, func(n int) {
-		it := itemAt(n)
+	start := time.Now()
+	stop := func() bool {
+		// keep the quick tier inside its wall-clock budget whatever the machine load is
+		if r.Quick() && os.Getenv("VERIF_BUDGET_S") == "" && time.Since(start) > 70*time.Second {
+			return true
+		}
+		return r.TimeUp()
+	}
+	done := enum.Parallel(nItems, stop, func(n int) {
+		it, ent := itemAt(n)
 		w := pool.Get().(*worker)
 		defer pool.Put(w)
 		rg := w.rig(it.l)
@@ -532,19 +689,15 @@ func main() {
 		p, buildErr := rg.Build(sql)
 		if buildErr != nil {
 			r.Add("queries_rejected_at_build", 1)
-			r.Distinct("build_errors", errClass(buildErr.Error()))
+			noteErr("build: " + errClass(buildErr.Error()))
 			return
 		}
 		r.Add("queries_planned", 1)
 		ex := rg.NewExec(nil)
 		ss := stores[it.l.Name()]
-		nrows := maxRows
-		if isReduced[it.l.Name()] {
-			nrows = maxRowsReduced
-		}
 		var nEval, nCmp, nRej, nMerged, nPanic, nViol int64
 		for ci, st := range ss {
-			if len(contents[ci]) > nrows {
+			if len(contents[ci]) > ent.rows || len(contents[ci]) < ent.minRows {
 				continue
 			}
 			o := runOne(ex, p, nil, prep, st, sql)
@@ -557,14 +710,14 @@ func main() {
 				if o.panicky {
 					nPanic++
 				}
-				r.Distinct("exec_errors", errClass(o.errText))
+				noteErr("exec: "+errClass(o.errText), it.l.Name(), sql, o.errText)
 				continue
 			}
 			nEval++
 			nCmp++
 			if o.merged >= 2 {
 				nMerged++
-				r.Distinct("nontrivial", strconv.Itoa(it.qi)+":"+strconv.Itoa(ci))
+				markNontrivial(it.qi, ci)
 			}
 			if o.status == "violation" {
 				nViol++
@@ -593,19 +746,19 @@ func main() {
 		r.Capped(fmt.Sprintf("%d of %d (layout, query) items in fewest-deviations-first order", done, nItems))
 	}
 
-	var names []string
-	for _, l := range full {
-		names = append(names, l.Name())
+	r.Set("distinct_nontrivial", countNontrivial())
+	r.Set("rejections_by_error_class", errClasses)
+	var plan []string
+	for _, e := range entries {
+		x := fmt.Sprintf("%s: <=%d deviations (%d queries) x contents of %d..%d rows", e.l.Name(), e.dev, nQueriesAt[e.dev], e.minRows, e.rows)
+		if e.dev == 4 {
+			x = fmt.Sprintf("%s: exactly 4 deviations (%d queries) x contents of <=%d rows", e.l.Name(), nQueriesAt[4]-nQueriesAt[3], e.rows)
+		}
+		plan = append(plan, x)
 	}
-	r.Set("layouts_full_grammar", names)
-	names = nil
-	for _, l := range reduced {
-		names = append(names, l.Name())
-	}
-	sort.Strings(names)
-	r.Set("layouts_reduced_grammar", names)
-	r.Set("bounds", fmt.Sprintf("contents: all multisets of <=%d rows of a %d-row universe (%d contents); queries: all clause vectors with <=%d deviations (%d) on the full-grammar layouts, <=%d deviations (%d) on the others; clause options per dimension %v",
-		maxRows, len(rig.Universe), len(contents), devFull, len(queriesFull), devReduced, len(queriesReduced), dims()))
+	r.Set("enumeration_plan", plan)
+	r.Set("bounds", fmt.Sprintf("contents: all multisets of rows of a %d-row universe (%d contents of <=%d rows); queries: all clause vectors within the deviation bound of each layout (see enumeration_plan); clause options per dimension %v",
+		len(rig.Universe), len(contents), maxRows, dims()))
 	r.Set("universe_items", nItems)
 	r.Set("rule", "cases = layout x query vector (enum.Deviations over the clause tables of grammar.go) x content (enum.Multisets over rig.Universe); a case is evaluated when MySQL semantics define its answer (sqlref accepts it) and Gaea builds a plan; it is non-trivial when at least two per-shard statements returned rows that had to be merged; distinct_nontrivial counts distinct (query vector, content) pairs among those")
 	r.Assume("sqlref implements MySQL semantics for the supported subset (ONLY_FULL_GROUP_BY, binary string collation, NULLs first ascending); it answers both the original statement on the union table and every rewritten statement on a shard")
